@@ -8,12 +8,22 @@
    recursion with closed forms for the array after `heaps k`, Proofs/C07HeapA.v + C07HeapN.v), so
    C07_det_correct_all_n / C07_inverse_all_n carry no size bound; the older theorems bounded by
    n <= 7 (kernel evaluation of the transcription) are kept as an independent cross-check.
+   DIVISION SAFETY (second extension wave): Model/LinAlgDiv.v is the SAME transcription of
+   inverse / inverse_less_generic with its two divisions made through a partial division
+   `pd : R -> R -> option R` (None = the element type's `/` panics; outcome Panic).
+   C07_inverse_instrumented_erase ties it to the model above (so every theorem about
+   inverse_matrix / inverse_tensor transfers); C07_inverse_divides_only_by_det says the only
+   quotient ever evaluated is one / det (1 x 1: one / the element), after the `== zero` test;
+   C07_inverse_division_is_evaluated that it really is evaluated; and
+   C07_inverse_never_divides_by_zero that with the strict division (None exactly on a divisor
+   `== zero`) NO input panics — for every dictionary, no hypothesis.  The correspondence runs
+   this instrumented model for element type 4 (StrictRat, `/` panics on zero).
    `ops_of dv` is the dictionary of a mathcomp commutative ring R with division `dv`;
    `mx_of dv n m` is the n x n matrix the routines read off a list of rows `m` (entry i j of m). *)
 From Coq Require Import PeanoNat List Permutation Ring_theory.
 From mathcomp Require Import all_ssreflect all_algebra.
-From EasyML Require Import Base.Sx Model.Num Model.Perms Model.LinAlg
-     Proofs.C07P1 Proofs.C07Heap7 Proofs.C07P2 Proofs.C07HeapN Proofs.C07P3.
+From EasyML Require Import Base.Sx Model.Num Model.Perms Model.LinAlg Model.DivOutcome Model.LinAlgDiv
+     Proofs.C07P1 Proofs.C07Heap7 Proofs.C07P2 Proofs.C07HeapN Proofs.C07P3 Proofs.C07Div.
 Import GRing.Theory.
 Local Open Scope ring_scope.
 
@@ -160,6 +170,77 @@ Proof.
   by rewrite det_scalar expf_neq0.
 Qed.
 
+(* ------------------------------------------------------------------ division safety *)
+(* the instrumented inverse is the same routine: whenever it returns a value (no division
+   panicked) that value is the result of the model above, for every partial division that agrees
+   with the dictionary's where it is defined; with the total division it never panics *)
+Theorem C07_inverse_instrumented_erase : forall (R : Type) (ops : numops R)
+  (pd : R -> R -> option R) (m : list (list R)),
+  sound_div ops pd ->
+  (forall r, inverse_matrix_i ops pd m = Ok r -> inverse_matrix ops m = r) /\
+  (forall r, inverse_tensor_i ops pd m = Ok r -> inverse_tensor ops m = r) /\
+  inverse_matrix_i ops (total_div ops) m = Ok (inverse_matrix ops m) /\
+  inverse_tensor_i ops (total_div ops) m = Ok (inverse_tensor ops m).
+Proof.
+  move=> R ops pd m Hs. split; first by move=> r; exact: inverse_matrix_i_erase.
+  split; first by move=> r; exact: inverse_tensor_i_erase.
+  split; [exact: inverse_matrix_i_total|exact: inverse_tensor_i_total].
+Qed.
+
+(* `inverse` divides only one by the determinant (the element itself for 1 x 1: it IS the
+   determinant) and only after having tested it `== zero`: a partial division that is defined on
+   that single pair — and nowhere else — is enough for the run to complete, both routes *)
+Theorem C07_inverse_divides_only_by_det : forall (R : Type) (ops : numops R)
+  (pd : R -> R -> option R) (m : list (list R)),
+  ((forall d, det_matrix ops m = Some d -> neqb ops d (nzero ops) = false ->
+              pd (none_ ops) d = Some (ndiv ops (none_ ops) d)) ->
+   inverse_matrix_i ops pd m = Ok (inverse_matrix ops m)) /\
+  ((forall d, det_tensor ops m = Some d -> neqb ops d (nzero ops) = false ->
+              pd (none_ ops) d = Some (ndiv ops (none_ ops) d)) ->
+   inverse_tensor_i ops pd m = Ok (inverse_tensor ops m)).
+Proof. move=> R ops pd m. split; [exact: inverse_matrix_i_only|exact: inverse_tensor_i_only]. Qed.
+
+(* ... and that quotient IS evaluated: if the element type cannot compute one / det for a
+   determinant tested non-zero, the run panics (so the theorem above is not about a model that
+   forgot the division) *)
+Theorem C07_inverse_division_is_evaluated : forall (R : Type) (ops : numops R)
+  (pd : R -> R -> option R) (m : list (list R)) (d : R),
+  neqb ops d (nzero ops) = false -> pd (none_ ops) d = None ->
+  (Nat.eqb (mrows m) (mcols m) = true -> det_matrix ops m = Some d ->
+   inverse_matrix_i ops pd m = Panic) /\
+  (is_square m = true -> det_tensor ops m = Some d -> inverse_tensor_i ops pd m = Panic).
+Proof.
+  move=> R ops pd m d Hz Hp. split=> Hsq Hd.
+  - exact: (inverse_matrix_i_divides ops pd m d Hsq Hd Hz Hp).
+  - exact: (inverse_tensor_i_divides ops pd m d Hsq Hd Hz Hp).
+Qed.
+
+(* NEVER A DIVISION BY ZERO: with the strict division (None exactly when the divisor is
+   `== zero`, as for an exact type whose `/` panics) every input — square or not, singular or
+   not, 1 x 1 included — gives Ok (the model's result): a value or absence, never Panic.
+   Any dictionary, no hypothesis (the routine's test and the strict division use the same `==`) *)
+Theorem C07_inverse_never_divides_by_zero : forall (R : Type) (ops : numops R)
+  (m : list (list R)) (names : nat * nat),
+  inverse_matrix_i ops (strict_div ops) m = Ok (inverse_matrix ops m) /\
+  inverse_tensor_i ops (strict_div ops) m = Ok (inverse_tensor ops m) /\
+  inverse_tensor2_i ops (strict_div ops) (mkT2 names m) = Ok (inverse_tensor2 ops (mkT2 names m)).
+Proof.
+  move=> R ops m names.
+  split; [exact: inverse_matrix_i_strict|split; [exact: inverse_tensor_i_strict|exact: inverse_tensor2_i_strict]].
+Qed.
+
+(* non-vacuity of the division theorems, by kernel evaluation over the harness' rationals: a
+   dictionary that cannot divide panics on an invertible input (1 x 1 and 2 x 2) and answers
+   absence on singular ones; the strict division gives the inverse of [[2,0],[0,2]]
+   (ex_2 = [[2]], ex_0 = [[0]], ex_2I = [[2,0],[0,2]], ex_sing = [[1,2],[2,4]], none_div = never defined) *)
+Example C07_nonvacuous_division :
+  inverse_matrix_i Qops none_div ex_2 = Panic /\
+  inverse_tensor_i Qops none_div ex_2I = Panic /\
+  inverse_matrix_i Qops none_div ex_0 = Ok None /\
+  inverse_tensor_i Qops none_div ex_sing = Ok None /\
+  (exists X, inverse_matrix_i Qops (strict_div Qops) ex_2I = Ok (Some X)).
+Proof. exact inverse_division_examples. Qed.
+
 (* the executable model on concrete inputs over the harness' exact types: C07P1.model_runs *)
 
 Print Assumptions C07_heap_enumerates.
@@ -174,3 +255,7 @@ Print Assumptions C07_entry_points_agree.
 Print Assumptions C07_heap_enumerates_all_n.
 Print Assumptions C07_det_correct_all_n.
 Print Assumptions C07_inverse_all_n.
+Print Assumptions C07_inverse_instrumented_erase.
+Print Assumptions C07_inverse_divides_only_by_det.
+Print Assumptions C07_inverse_division_is_evaluated.
+Print Assumptions C07_inverse_never_divides_by_zero.
